@@ -194,6 +194,10 @@ def run_check(prop: str, run_rules, *, tier='quick', replay=None, thorough_extra
                 msg = f'{m.rel}: `{old_q}` is not defined; `{new_q}` (body similarity {sim}) is read as the renamed `{old_q}`'
                 ck.notes.append(msg)
                 print(f'  note: {msg}')
+            for qn, where_ in getattr(m, 'moved', []):
+                msg = f'{m.rel}: `{qn}` is not defined here; the definition found in {where_} is used (moved)'
+                ck.notes.append(msg)
+                print(f'  note: {msg}')
             for caller, helper, line in getattr(m, 'inlined', []):
                 msg = f'{m.rel}: `{helper}` is not a function of the confirmed tree; its call at L{line} of `{caller}` is read in place (extracted helper)'
                 ck.notes.append(msg)
@@ -211,6 +215,12 @@ def run_check(prop: str, run_rules, *, tier='quick', replay=None, thorough_extra
                 counts[o.rule] = counts.get(o.rule, 0) + 1
             print(f'  note: analysis stopped early ({e}); reporting the {sum(1 for o in ck.obs if not o.ok)} obligation(s) that failed before that point')
         else:
+            for m in repo.modules.values():
+                for qn, where_ in getattr(m, 'moved', []):
+                    msg = f'{m.rel}: `{qn}` is not defined here; the definition found in {where_} is used (moved)'
+                    if msg not in ck.notes:
+                        ck.notes.append(msg)
+                        print(f'  note: {msg}')
             counts = ck.check_minimums()
             if tier == 'thorough':
                 extra = path_census(ck)
